@@ -797,6 +797,15 @@ class Sym:
                     nxt += self.pmatch(f["pat"], mk_field(t, f["name"]), s3)
                 cur = nxt
             return cur
+        if k == "Slice" and pat.get("slice") is not None and pat["slice"].get("k") == "Wild" and not pat.get("suffix") \
+                and len(pat.get("prefix") or []) == 1 and pat["prefix"][0].get("k") == "Wild":
+            # `[_, ..]`: the slice is not empty
+            out = []
+            for pol in (True, False):
+                s1 = st.with_cond(("empty", t), not pol)
+                if s1 is not None:
+                    out.append((s1, pol))
+            return out
         if k == "Slice" and pat.get("slice") is None and not pat.get("suffix") and not pat.get("prefix"):
             # `[]`: the slice is empty
             out = []
